@@ -36,3 +36,13 @@ json.dump({"comment": "reference code tables of the message types, reviewed agai
            "tables": {k: {"ordered": v["ordered"], "value": v["value"]} for k, v in sorted(tabs.items())}},
           open(os.path.join(HERE, "spec", "code_tables.json"), "w"), indent=1)
 print("wrote", len(tabs), "tables")
+
+from rules import accept
+acc = accept.extract_all(F)
+json.dump({"comment": "reference accept conditions (function returns Ok) of field parsers, utility validators and "
+                      "header parsers on the pinned tree; compared by logical equivalence only. Known defects of the "
+                      "pinned tree (see known_findings.json) are part of this reference: U6 detects changes of an "
+                      "accept condition, the other rules judge the condition itself.",
+           "functions": {p: {"f": guards.to_json(f), "show": guards.show(f)[:3000]} for p, (f, b) in sorted(acc.items())}},
+          open(os.path.join(HERE, "spec", "accept_formulas.json"), "w"), indent=1)
+print("wrote", len(acc), "accept formulas")
